@@ -69,7 +69,7 @@ def main():
         sd = os.path.join(VERIF, sd) if not os.path.isabs(sd) else sd
         sid = os.path.basename(sd.rstrip("/"))
         own = sid.split("-")[0]
-        subprocess.check_call("git checkout -q --detach %s && git reset -q --hard && git clean -fdq tests" % head,
+        subprocess.check_call("git checkout -q --detach %s && git reset -q --hard && git clean -fdq tests src" % head,
                               cwd=W, shell=True)
         subprocess.check_call(["cp", "/repo/Cargo.lock", W])
         r = subprocess.run(["git", "apply", os.path.join(sd, "patch.diff")], cwd=W)
@@ -92,7 +92,7 @@ def main():
         rules = sorted({h.split(" ")[0] for h in det.get(own, [])})
         print("%-10s %-7s own-rules=%s others=%s" % (sid, "CAUGHT" if caught else ("other" if det else "MISSED"), rules,
                                                      sorted(k for k in det if k != own)), flush=True)
-    subprocess.check_call("git reset -q --hard && git clean -fdq tests", cwd=W, shell=True)
+    subprocess.check_call("git reset -q --hard && git clean -fdq tests src", cwd=W, shell=True)
 
 
 if __name__ == "__main__":
